@@ -139,6 +139,9 @@ fn file_bytes(dir: &Path) -> BTreeMap<String, Vec<u8>> {
     m
 }
 
+/// (--short-writes: fault mode fails every write ONLY the way a full device usually does - half of the bytes are
+/// written, the retry of the rest fails with ENOSPC; these runs go to their own trace files)
+static SHORT_WRITES: std::sync::atomic::AtomicBool = std::sync::atomic::AtomicBool::new(false);
 /// (--no-aftermath: the probes stop after the put and the restart; for checks that only judge the calls)
 static NO_AFTERMATH: std::sync::atomic::AtomicBool = std::sync::atomic::AtomicBool::new(false);
 
@@ -526,6 +529,8 @@ fn run_fault(b: &Behaviour, names: &Names, max_points: usize, only_op: Option<&s
     let knobs = Knobs { concurrency: 1, cache: 4 };
     // clean run to count the calls (and, for --only-op, to learn which calls an operation of that kind issues)
     let mut eligible: Vec<bool> = vec![];
+    let mut kinds: Vec<&'static str> = vec![];
+    let short_only = SHORT_WRITES.load(std::sync::atomic::Ordering::Relaxed);
     let total = {
         shim::set_clock_skew(0);
         let sc = Scratch::new("fs");
@@ -557,7 +562,7 @@ fn run_fault(b: &Behaviour, names: &Names, max_points: usize, only_op: Option<&s
         }
         drop(kv);
         let n = shim::mutating_seen();
-        shim::stop();
+        kinds = shim::stop().iter().filter(|c| c.mutating()).map(|c| c.kind).collect();
         n as usize
     };
     let mut nruns = 0u64;
@@ -568,7 +573,11 @@ fn run_fault(b: &Behaviour, names: &Names, max_points: usize, only_op: Option<&s
         if total > max_points && j >= 2 && rng.below(total as u64) >= max_points as u64 {
             continue;
         }
-        for (errno, ename) in [(libc::ENOSPC, "ENOSPC"), (libc::EIO, "EIO")] {
+        let variants: &[(i32, &str)] = if short_only { &[(-libc::ENOSPC, "SHORT")] } else { &[(libc::ENOSPC, "ENOSPC"), (libc::EIO, "EIO")] };
+        if short_only && kinds.get(j).copied() != Some("write") {
+            continue;
+        }
+        for &(errno, ename) in variants {
             shim::set_clock_skew(0);
         let sc = Scratch::new("fs");
             let dir = sc.path().to_path_buf();
@@ -649,6 +658,29 @@ fn run_fault(b: &Behaviour, names: &Names, max_points: usize, only_op: Option<&s
                     break;
                 }
             }
+            // the directory as a close at this moment leaves it (every append has reached its file): it must open and
+            // read correctly - with and without its hint files.  The probes run on copies, taken BEFORE the closing
+            // merge below can tidy up what the failed call left behind.
+            let _ = shim::take_calls();
+            pend.set(&json!({"ev": "final", "run": b.id, "phase": "probe", "fault": j}));
+            let (wh, nh) = (Scratch::new("withhint"), Scratch::new("nohint"));
+            let mut nhints = 0;
+            if let Ok(rd) = fs::read_dir(&dir) {
+                for e in rd.flatten() {
+                    let name = e.file_name().to_string_lossy().to_string();
+                    let _ = fs::copy(e.path(), wh.path().join(&name));
+                    if name.ends_with(".hint") {
+                        nhints += 1;
+                    } else {
+                        let _ = fs::copy(e.path(), nh.path().join(&name));
+                    }
+                }
+            }
+            shim::stop();
+            let rec = recover_in_place(wh.path(), &b.cfg, names);
+            let rec_nh = recover_in_place(nh.path(), &b.cfg, names);
+            pend.clear();
+            out.emit(&json!({"ev": "final", "rec": rec, "hints": nhints, "rec_nohint": rec_nh}));
             // when every file is eligible by its size, one more merge pass (no fault is left) must leave the store
             // exactly as large as its live data: whatever the failed call left behind is reclaimed (C13)
             if kv.is_some() && b.cfg.th_small >= 1_000_000 {
@@ -660,35 +692,14 @@ fn run_fault(b: &Behaviour, names: &Names, max_points: usize, only_op: Option<&s
                     Ok(Err(e)) => format!("err:{e}"),
                     Err(_) => "panic".into(),
                 };
-                let _ = shim::take_calls();
                 note["phase"] = json!("gets");
                 pend.set(&note);
                 let gets = read_all(&h, names);
                 let size: u64 = list_files(&dir, "data").iter().map(|(_, p)| fs::metadata(p).map(|m| m.len()).unwrap_or(0)).sum();
+                pend.clear();
                 out.emit(&json!({"ev": "fullmerge", "res": res, "gets": gets, "size": size}));
-                let _ = shim::take_calls();
             }
-            // finally: close, the directory must open and read correctly - with and without its hint files
             drop(kv);
-            let _ = shim::take_calls();
-            shim::stop();
-            pend.set(&json!({"ev": "final", "run": b.id, "phase": "probe", "fault": j}));
-            let nh = Scratch::new("nohint");
-            let mut nhints = 0;
-            if let Ok(rd) = fs::read_dir(&dir) {
-                for e in rd.flatten() {
-                    let name = e.file_name().to_string_lossy().to_string();
-                    if name.ends_with(".hint") {
-                        nhints += 1;
-                    } else {
-                        let _ = fs::copy(e.path(), nh.path().join(&name));
-                    }
-                }
-            }
-            let rec = recover_in_place(&dir, &b.cfg, names);
-            let rec_nh = recover_in_place(nh.path(), &b.cfg, names);
-            pend.clear();
-            out.emit(&json!({"ev": "final", "rec": rec, "hints": nhints, "rec_nohint": rec_nh}));
             nruns += 1;
         }
     }
@@ -709,6 +720,7 @@ fn main() {
     // fault mode: fail only the calls issued by operations of this kind (e.g. merge)
     let only_op: Option<String> = arg_val(&args, "--only-op");
     NO_AFTERMATH.store(args.iter().any(|a| a == "--no-aftermath"), std::sync::atomic::Ordering::Relaxed);
+    SHORT_WRITES.store(args.iter().any(|a| a == "--short-writes"), std::sync::atomic::Ordering::Relaxed);
     let shard = arg_val(&args, "--shard").unwrap_or_else(|| "0/1".into());
     let (si, sn): (usize, usize) = {
         let mut it = shard.split('/');
